@@ -1,4 +1,5 @@
 #!/bin/sh
+# helper: run the thorough tier of every check, one after the other (hours); prints the verdict line and the first violation of each
 for c in C01 C02 C03 C04 C05 C06 C07 C08 C09 C10 C11 C12 C13 C14 C15 C16 C17 C18; do
-  /usr/bin/time -f "%e s" ./check $c --tier thorough 2>&1 | grep -v "^KNOWN" | tail -2
+  /usr/bin/time -f "%e s, %M KB max RSS" ./check $c --tier thorough 2>&1 | grep -v "^KNOWN" | cut -c1-600 | tail -4
 done
